@@ -1,10 +1,13 @@
 package progen
 
 import (
+	"regexp"
 	"sort"
 	"strconv"
 	"strings"
 )
+
+var setIDLine = regexp.MustCompile(`^"[^"]+"\.[A-Za-z_][A-Za-z0-9_]*$`)
 
 // SetModel is what `wire show` must print for one top-level provider set.
 type SetModel struct {
@@ -191,6 +194,8 @@ func ParseShow(stdout string) (map[string]SetModel, []string) {
 				sm.Groups[group] = append(sm.Groups[group], strings.TrimSpace(l))
 				sets[cur] = sm
 			}
+		case cur == "" && strings.HasPrefix(l, "\t"):
+			// belongs to a line that is not a set
 		case strings.HasPrefix(l, "\tOutputs given "):
 			group = strings.TrimSuffix(strings.TrimPrefix(l, "\tOutputs given "), ":")
 			sm := sets[cur]
@@ -204,6 +209,13 @@ func ParseShow(stdout string) (map[string]SetModel, []string) {
 			sm.Imports = append(sm.Imports, strings.TrimSpace(l))
 			sets[cur] = sm
 		default:
+			// a provider set is announced as "import/path".VarName at the start of a line; any other unindented
+			// line (a banner, a per-package header, a summary) is not part of the structure the statement describes
+			inInj = false
+			if !setIDLine.MatchString(l) {
+				cur, group = "", ""
+				continue
+			}
 			cur = l
 			group = ""
 			sets[cur] = SetModel{Groups: map[string][]string{}}
